@@ -406,3 +406,51 @@ def byte_set_reaching(body, var, start, targets, preds, values=None, through_cal
                 if reach_all:
                     must |= 1 << v
     return must, may
+
+
+def calls_along_path(body, var, start, v, preds, stop, limit=80):
+    """names of the calls executed from block `start` when the byte variable `var` holds v, following the branches that depend on
+    `var` (and on flags set on the way) until a call in `stop` is reached; None if a branch on anything else is met"""
+    from vlib.mir import callee_name, strip_generics
+
+    out = []
+    b = start
+    env = {}
+    n = 0
+    while n < limit:
+        n += 1
+        for stt in body.blocks[b]["stmts"]:
+            if stt["k"] == "assign" and not stt["lhs"]["p"] and stt["rv"]["k"] == "use":
+                cc = op_const(stt["rv"]["op"])
+                ci = const_int(cc) if cc is not None else None
+                if ci is not None:
+                    env[stt["lhs"]["l"]] = ci
+                else:
+                    env.pop(stt["lhs"]["l"], None)
+        t = body.term(b)
+        if t["k"] == "switch":
+            plx = op_place(t["op"])
+            if plx is not None and not plx["p"] and plx["l"] in env:
+                c = env[plx["l"]]
+            else:
+                d = describe(body, t["op"])
+                c = _eval(d, var, v, preds)
+                if c is None and d.kind == "discr" and "Try>::branch" in repr(d):
+                    c = 0  # the success edge of a `?`
+            if c is None:
+                return None
+            c = int(c)
+            b = next((tb for val, tb in t["targets"] if int(val) == c), t["otherwise"])
+            continue
+        if t["k"] == "call":
+            nm = strip_generics(callee_name(t) or "?")
+            out.append(nm)
+            if nm.split("::")[-1] in stop:
+                return out
+        if t["k"] in ("return", "resume", "unreachable"):
+            return out
+        nx = body.succ(b)
+        if len(nx) != 1:
+            return None if not nx else out
+        b = nx[0]
+    return None
